@@ -996,6 +996,20 @@ class PackageGenerator:
             mp.body.append(self.gen_class(mp, "GridView", None, n_methods=3, allow_nested=False))
             mp.all_classes += ["Grid", "GridView"]
             mp.public_classes += ["Grid", "GridView"]
+            # parameters whose names differ by a trailing underscore only, the underscore variant documented later
+            for fn_ in ("bounded", "clamped"):
+                mp.body.append(self.gen_function(mp, fn_, mp.qname, force_sig=(("pos", "limit", "int", None), ("pos", "limit_", "int", "0"),
+                                                                                  ("pos", "type", "str", '"a"'), ("pos", "type_", "str", '"b"'))))
+            # a class that documents its constructor parameters in the CLASS docstring and defines a nested class BEFORE __init__
+            cq_ = f"{mp.qname}.Holder"
+            self.probes.setdefault("classes", []).append(cq_)
+            p_w = self.tokens.new("P", cq_ + ".__init__", "width")
+            p_h = self.tokens.new("P", cq_ + ".__init__", "height")
+            cdoc = self.doc("    ", self.desc("C", cq_), [("width", "", f"Ctor {p_w}."), ("height", "", f"Ctor {p_h}.")], None, [], None)
+            mp.body.append(f"class Holder:\n{cdoc}\n\n    class Part:\n        def ping(self, n: int = 0) -> int:\n            ...\n\n"
+                           "    def __init__(self, width: int = 1, height: int = 2) -> None:\n        self.width = width\n        self.height = height\n")
+            mp.all_classes += ["Holder"]
+            mp.public_classes += ["Holder"]
 
         # everyday shapes that once aborted the tool (added last, no random draws): an enum with a method and a property, and
         # a constructor that fills a container attribute element by element and unpacks into starred / nested targets
@@ -1016,6 +1030,8 @@ class PackageGenerator:
                         '    depth : int, default=3\n        The depth.\n\n    Attributes\n    ----------\n'
                         '    best_ : dict, default=collections_extra.ordered.DefaultOrderedMapping(list)\n        The best.\n    """\n\n'
                         '    def __init__(self, cv=None, depth=3) -> None:\n        self.best_ = {}\n')
+        # ... and float literals beyond the range of a double (mypy evaluates them to inf / -inf)
+        me_.body.append("def bounds(lower: float = -1e400, upper: float = 1e999, eps: float = 1e-07) -> float:\n    ...\n")
         me_.all_classes += ["Registry", "Version", "Tuned"]
         me_.public_classes += ["Registry", "Version", "Tuned"]
 
